@@ -1,0 +1,6 @@
+//go:build !verif
+// +build !verif
+
+package livesql
+
+func verifEv(kind string, table string, a, b interface{}) {}
